@@ -578,6 +578,11 @@ pub fn eval_misuse(sc: &Scenario) -> CaseResult {
             });
         }
     }
+    if let Some(t1) = sc.ops.iter().find_map(|o| if let Op::Disconnect { tick, .. } = o { Some(*tick) } else { None }) {
+        if out.peers[0].misuse_results.iter().any(|m| m.1 == 3 && m.0 >= t1 + 320) {
+            r.classes.push("disconnect_again_after_endpoint_shutdown");
+        }
+    }
     r.classes.sort();
     r.classes.dedup();
     r
@@ -597,6 +602,18 @@ pub fn gen_misuse(tier: Tier) -> BoxedStrategy<Scenario> {
                 let kind = [0u8, 1, 3, 4, 5][kind as usize % 5];
                 let tick = if t % 5 == 0 { (t % 12) as u32 } else { idx(t, sc.ticks.max(1) as usize) as u32 };
                 sc.ops.push(Op::Misuse { tick, peer: idx(pe, np) as u8, kind, arg });
+            }
+            if np == 2 && sc.seed % 2 == 0 {
+                // a valid disconnect_player (the remote dies at the same moment), then the same call again
+                // 1 tick, half a second and more than five seconds later (the endpoint has shut down by then)
+                let t1 = 40 + (sc.seed >> 8) as u32 % 60;
+                let handle = sc.peers[0].locals;
+                sc.ticks = sc.ticks.max(t1 + 460);
+                sc.ops.push(Op::Disconnect { tick: t1, peer: 0, handle });
+                sc.ops.push(Op::Kill { tick: t1, peer: 1 });
+                for dt in [1u32, 30, 330 + (sc.seed >> 16) as u32 % 40, 440] {
+                    sc.ops.push(Op::Misuse { tick: t1 + dt, peer: 0, kind: 3, arg: handle });
+                }
             }
             sc
         })
